@@ -29,7 +29,7 @@ REQUIRED_THEOREMS = [
     "ks_rate_eq_expression_linear", "swiftHohenberg_rate_eq_expression_linear",
     "ks_grouped_text_vs_split_class_gap", "swiftHohenberg_grouped_text_vs_split_class_gap",
     "affine_bc_not_odd", "ks_old_compiled_gap", "cahnHilliard_rate_uses_own_bc", "ks_rate_uses_own_bc",
-    "wave_as_first_order_system", "exprProd_sound", "affineOp_is_affine",
+    "wave_as_first_order_system", "exprProd_sound", "exprProd_printed", "affineOp_is_affine", "rhsValue_operator_free",
 ]
 RULE = ("cases = (equation class or generic right-hand-side program, parameters incl. the expr_prod branch values "
         "0/1/-1 and 7-digit decimals, grid out of 1-d/2-d Cartesian (periodic or not), polar, spherical, cylindrical, "
@@ -245,22 +245,26 @@ def gen_generic_case(rng, i, jit):
     g = gen_grid(rng, small=jit)
     n = n_cells(g)
     family = rng.choice(["reaction-diffusion", "nonlinear-diffusion", "nested", "two-fields-dot", "integral", "field-const",
-                         "coordinates", "explicit-t", "vector-first-order", "inner", "random"])
-    if family == "vector-first-order" and g["cls"] not in ("CartesianGrid", "UnitGrid"):
+                         "coordinates", "explicit-t", "vector-first-order", "inner", "random", "outer-tensor"])
+    if family in ("vector-first-order", "outer-tensor") and g["cls"] not in ("CartesianGrid", "UnitGrid"):
         # the symmetric curvilinear grids restrict vector fields (no angular components)
         family = "nested"
+    # `pde.tools.expressions.evaluate` is the same machinery without time: used on time-free programs
+    use_evaluate = family in ("reaction-diffusion", "nonlinear-diffusion", "nested", "field-const", "coordinates") and rng.random() < 0.5
     coords = list(g["axes"])
     consts = {}
     fconsts = {}
     if rng.random() < 0.6 or family == "field-const":
         for nm in rng.sample(["k", "a0", "D2", "kappa"], rng.choice([1, 2])):
             consts[nm] = rng.choice([dy(rng, 0.25, 2, 8), round(rng.uniform(-2, 2), 2)]) or 1.25
-    if family == "field-const" or rng.random() < 0.2:
+    if family in ("field-const", "outer-tensor") or rng.random() < 0.2:
         fconsts["f"] = [dy(rng, 0.5, 2, 8) for _ in range(n)]
     fields = ["c"] if family not in ("two-fields-dot", "inner", "vector-first-order") else ["c", "d"]
-    if rng.random() < 0.25 and len(fields) == 1 and family != "vector-first-order":
+    if family == "outer-tensor":
+        fields = ["T"]
+    if rng.random() < 0.25 and len(fields) == 1 and family not in ("vector-first-order", "outer-tensor") and not use_evaluate:
         fields = ["c", "d"]
-    ranges = {f: (-2.0, 2.0) for f in fields}
+    ranges = {f: (-2.0, 2.0) for f in fields + ["c"]}
     ranges.update({c: (v, v) for c, v in consts.items()})
     ranges.update({f: (0.5, 2.0) for f in fconsts})
     ranges["t"] = (0.0, 4.0)
@@ -299,8 +303,9 @@ def gen_generic_case(rng, i, jit):
     c = X.var("c")
     rhs = {}
     vector_vars = []
+    ranks = {}
     if family == "reaction-diffusion":
-        rhs["c"] = X.bi("add", X.bi("mul", coef(), lap(c)), local(["c"] + (["t"] if rng.random() < 0.3 else [])))
+        rhs["c"] = X.bi("add", X.bi("mul", coef(), lap(c)), local(["c"] + (["t"] if rng.random() < 0.3 and not use_evaluate else [])))
     elif family == "nonlinear-diffusion":
         rhs["c"] = X.bi("sub", lap(local(["c"], 2)), X.bi("mul", coef(), c))
     elif family == "nested":
@@ -323,33 +328,42 @@ def gen_generic_case(rng, i, jit):
         rhs["c"] = X.bi("mul", coef(), X.un("call1", X.var("d"), f="divergence"))
         rhs["d"] = X.un("call1", c, f="gradient")
         vector_vars = ["d"]
+        ranks["d"] = 1
+    elif family == "outer-tensor":
+        # a tensor field relaxing towards the outer product of the gradient of a constant field
+        gf = X.un("call1", X.var("f"), f="gradient")
+        rhs["T"] = X.bi("sub", X.bi("call2", gf, gf, f="outer"), X.bi("mul", coef(), X.var("T")))
+        vector_vars = ["T"]
+        ranks["T"] = 2
     else:
         rhs["c"] = X.bi(rng.choice(["add", "sub"]), X.bi("mul", coef(), lap(local(["c"], 2))),
                         X.bi("mul", gsq(c) if rng.random() < 0.5 else lap(c), local(["c", "t"] + coords[:1], 2)))
     for f in fields:
         if f not in rhs:
             rhs[f] = X.bi("sub", lap(X.var(f)), X.bi("mul", X.var(f), c))
+    timedep = not use_evaluate
     # boundary conditions: default + per-operator overrides
     ops_used = sorted({(v, nd["f"]) for v, e in rhs.items() for nd in X.walk(e)
                        if nd["k"] == "call1" and nd["f"] in ("laplace", "gradient_squared", "gradient", "divergence")})
-    bc = gen_bc(rng, g)
+    bc = gen_bc(rng, g, timedep=timedep)
     bc_ops = {}
     for v, op in ops_used:
         # expression conditions are implemented for scalar fields only: operators on vector fields get
         # constant (still inhomogeneous) conditions
         vec_op = op == "divergence"
         if rng.random() < 0.6 or vec_op:
-            key = rng.choice([f"{v}:{op}", f"*:{op}", f"{v}:{op}"])
+            key = rng.choice([f"{v}:{op}", f"*:{op}", f"{v}:{op}"]) if not use_evaluate else f"{v}:{op}"
             if key not in bc_ops:
-                bc_ops[key] = gen_bc(rng, g, timedep=not vec_op)
+                bc_ops[key] = gen_bc(rng, g, timedep=timedep and not vec_op)
     dim = {"CartesianGrid": len(g["axes"]), "UnitGrid": len(g["axes"]), "PolarSymGrid": 2, "SphericalSymGrid": 3,
            "CylindricalSymGrid": 3}[g["cls"]]
     state = {}
     for f in fields:
-        state[f] = [gen_state(rng, n) for _ in range(dim)] if f in vector_vars else gen_state(rng, n)
+        state[f] = [gen_state(rng, n) for _ in range(dim ** ranks[f])] if f in vector_vars else gen_state(rng, n)
     texts = {v: X.to_text(e) for v, e in rhs.items()}
     return {"id": i, "leg": "C", "family": family, "grid": g, "jit": jit, "rhs": texts, "bc": bc, "bc_ops": bc_ops,
-            "consts": consts, "fconsts": fconsts, "fields": fields, "vector_vars": vector_vars, "dim": dim,
+            "consts": consts, "fconsts": fconsts, "fields": fields, "vector_vars": vector_vars, "ranks": ranks, "dim": dim,
+            "use_evaluate": use_evaluate,
             "state": state, "t": rng.choice([0.5, 1.25, round(rng.uniform(0, 3), 3)]), "t2": rng.choice([2.0, 0.75])}
 
 
@@ -464,30 +478,33 @@ def _run_class_case(case):
     return out
 
 
-def desugar(e, dim, vector_vars):
-    """scalar AST per component for an expression that may contain dot/inner/gradient/divergence:
-    returns a list (one AST per component of the result; length 1 for scalars)"""
+def desugar(e, dim, vector_vars, ranks=None):
+    """scalar AST per component for an expression that may contain dot/inner/outer/gradient/
+    divergence: returns a list (one AST per component of the result, row-major; length 1 for scalars)"""
     k = e["k"]
     if k == "var" and e["n"] in vector_vars:
-        return [X.var(f"{e['n']}__{j}") for j in range(dim)]
+        return [X.var(f"{e['n']}__{j}") for j in range(dim ** (ranks or {}).get(e["n"], 1))]
+    if k == "call2" and e["f"] == "outer":
+        a, b = desugar(e["a"], dim, vector_vars, ranks), desugar(e["b"], dim, vector_vars, ranks)
+        return [X.bi("mul", a[i], b[j]) for i in range(dim) for j in range(dim)]
     if k == "call1" and e["f"] == "gradient":
-        a = desugar(e["a"], dim, vector_vars)
+        a = desugar(e["a"], dim, vector_vars, ranks)
         assert len(a) == 1
         return [X.un("call1", a[0], f=f"gradient__{j}") for j in range(dim)]
     if k == "call1" and e["f"] == "divergence":
-        a = desugar(e["a"], dim, vector_vars)
+        a = desugar(e["a"], dim, vector_vars, ranks)
         assert len(a) == dim
         out = X.un("call1", a[0], f="divergence__0")
         for j in range(1, dim):
             out = X.bi("add", out, X.un("call1", a[j], f=f"divergence__{j}"))
         return [out]
     if k == "call2" and e["f"] in ("dot", "inner"):
-        a, b = desugar(e["a"], dim, vector_vars), desugar(e["b"], dim, vector_vars)
+        a, b = desugar(e["a"], dim, vector_vars, ranks), desugar(e["b"], dim, vector_vars, ranks)
         out = X.bi("mul", a[0], b[0])
         for j in range(1, dim):
             out = X.bi("add", out, X.bi("mul", a[j], b[j]))
         return [out]
-    parts = {c: desugar(e[c], dim, vector_vars) for c in ("a", "b", "h") if c in e}
+    parts = {c: desugar(e[c], dim, vector_vars, ranks) for c in ("a", "b", "h") if c in e}
     if not parts:
         return [e]
     m = max(len(v) for v in parts.values())
@@ -520,7 +537,9 @@ def _run_generic_case(case):
     dim = case["dim"]
     fields = []
     for f in case["fields"]:
-        if f in case["vector_vars"]:
+        if f in case["vector_vars"] and case.get("ranks", {}).get(f, 1) == 2:
+            fields.append(pde.Tensor2Field(grid, _arr(case["state"][f]).reshape((dim, dim) + tuple(grid.shape)), label=f))
+        elif f in case["vector_vars"]:
             fields.append(pde.VectorField(grid, _arr(case["state"][f]).reshape((dim,) + tuple(grid.shape)), label=f))
         else:
             fields.append(pde.ScalarField(grid, _arr(case["state"][f]).reshape(grid.shape), label=f))
@@ -538,12 +557,24 @@ def _run_generic_case(case):
     for tag, t in (("t", case["t"]), ("t2", case["t2"])):
         out["numpy_" + tag] = flat(eq.evolution_rate(state.copy(), t).data)
         out["numba_" + tag] = flat(rhs(state.data.copy(), t))
+    if case.get("use_evaluate"):
+        from pde.tools.expressions import evaluate
+
+        econsts = dict(case["consts"])
+        for k, v in case["fconsts"].items():
+            econsts[k] = _arr(v).reshape(grid.shape)
+        ebc_ops = {key.split(":")[1]: b for key, b in case["bc_ops"].items()}
+        for backend in ("numpy", "numba"):
+            res = evaluate(case["rhs"]["c"], {f.label: f for f in fields}, bc=case["bc"], bc_ops=ebc_ops or None,
+                           consts=econsts or None, backend=backend)
+            out["evaluate_" + backend] = flat(res.data)
     if not jit_on:
         ops = {}
         for var, text in case["rhs"].items():
             ast = X.read_text(text, set(case["fields"]) | set(consts) | set(case["grid"]["axes"]) | {"t"})
             used = {nd["f"] for nd in X.walk(ast) if nd["k"] == "call1" and nd["f"] in
                     ("laplace", "gradient_squared", "gradient", "divergence", "integral")}
+            
             for tag, t in (("t", case["t"]), ("t2", case["t2"])):
                 d = ops.setdefault(f"{var}@{tag}", {})
                 for op in used:
@@ -651,8 +682,8 @@ def run(ctx):
     from harness.common.lean import LeanBatch, BrokenCheck
 
     rng = ctx.rng
-    nA, nB, nC = ctx.budget(128, 1200), ctx.budget(96, 900), ctx.budget(128, 1200)
-    jA, jB, jC = ctx.budget(12, 64), ctx.budget(8, 40), ctx.budget(8, 48)
+    nA, nB, nC = ctx.budget(96, 800), ctx.budget(72, 600), ctx.budget(104, 800)
+    jA, jB, jC = ctx.budget(8, 48), ctx.budget(6, 32), ctx.budget(6, 32)
     cases = []
     classes = sorted(CLASSES)
     for k in range(nA):
@@ -757,7 +788,7 @@ def generic_requests(batch, c, r):
     rational = True
     for var, text in c["rhs"].items():
         ast = X.strip(X.read_text(text, declared))
-        comps = desugar(ast, dim, c["vector_vars"])
+        comps = desugar(ast, dim, c["vector_vars"], c.get("ranks"))
         for j, e in enumerate(comps):
             exprs.append([f"{var}__{j}" if var in c["vector_vars"] else var, e, var])
             rational = rational and X.rational_fragment(_strip_ops(e))
@@ -767,7 +798,7 @@ def generic_requests(batch, c, r):
     fields = []
     for f in c["fields"]:
         if f in c["vector_vars"]:
-            for j in range(dim):
+            for j in range(dim ** c.get("ranks", {}).get(f, 1)):
                 fields.append([f"{f}__{j}", [enc(x) for x in c["state"][f][j]]])
         else:
             fields.append([f, [enc(x) for x in c["state"][f]]])
@@ -908,6 +939,20 @@ def judge(ctx, c, rs, rj, sl, answers):
                     if not ok:
                         ctx.disagree(leg, dict(case, time=c[t], exec_mode=tag, route=route.strip("_")), mv, r[route + t],
                                      f"{route.strip('_')} rate differs from the field semantics of the text (max abs diff {worst:.3g})")
+                if c.get("use_evaluate") and t == "t":
+                    # `evaluate(text, fields, ...)`: same text, same conditions, no time
+                    for route in ("evaluate_numpy", "evaluate_numba"):
+                        ctx.impl_traces += 1
+                        ctx.monitor_evals += 1
+                        ctx.hist("evaluate", route + "/" + tag)
+                        ok, worst = close_arr(mv, r[route], 1e-9, scale_of(mv, r[route]))
+                        if not ok:
+                            ctx.disagree(leg, dict(case, exec_mode=tag, route=route), mv, r[route],
+                                         f"{route} differs from the field semantics of the text (max abs diff {worst:.3g})")
+                        ok, worst = close_arr(r["numpy_t"], r[route], TOL, scale_of(r["numpy_t"]))
+                        if not ok:
+                            ctx.monitor_fail(leg, dict(case, exec_mode=tag, route=route), r[route], r["numpy_t"],
+                                             "evaluate(text) differs from the rate of PDE(text)", key=dict(key, what="evaluate-vs-pde"))
         nontrivial = not const_rate
     ctx.count(case, nontrivial=nontrivial, leg=leg)
 
